@@ -262,6 +262,61 @@ func c02NonObjects(c *mon.Ctx) {
 // a member with the invalid byte 0xFF in that place was inserted or substituted. A reader that turns invalid bytes into
 // U+FFFD takes the two names for one; the copy is another object than the one that was signed. (SignJSON given such
 // bytes itself: an error, or something that verifies.)
+// c02UnpairedSurrogates: the escape of half a surrogate pair inserted into a value or a member name of a signed object
+// is a change to that member (every decoder reads U+FFFD there): the signature no longer verifies. And what SignJSON
+// signs verifies, so an object that already holds such an escape is refused or signed so that it does.
+func c02UnpairedSurrogates(c *mon.Ctx) {
+	if c.Shard != 0 {
+		return
+	}
+	id := gen.NewIdentity(c.RandShared("surrogate-signer"), "origin.example", "ed25519:1")
+	signed, err := gmsl.SignJSON(id.Server, gmsl.KeyID(id.KeyID), id.Priv, []byte(`{"amount":"pay 1","nested":{"k":["v"]},"note":"x"}`))
+	if err != nil {
+		panic(err)
+	}
+	canon := string(signed)
+	for _, esc := range []string{`\udead`, `\ud800`, `\uDBFF`, `\udc00`, `\uDFFF`, `\ud800\u0041`, `\udc00\ud800`} {
+		for kind, text := range map[string]string{
+			"unpaired-surrogate-appended-to-value":  strings.Replace(canon, `"pay 1"`, `"pay 1`+esc+`"`, 1),
+			"unpaired-surrogate-inside-value":       strings.Replace(canon, `"pay 1"`, `"pay`+esc+` 1"`, 1),
+			"unpaired-surrogate-in-nested-value":    strings.Replace(canon, `["v"]`, `["`+esc+`v"]`, 1),
+			"unpaired-surrogate-in-member-name":     strings.Replace(canon, `"note":`, `"note`+esc+`":`, 1),
+			"unpaired-surrogate-in-nested-name":     strings.Replace(canon, `"k":`, `"`+esc+`k":`, 1),
+			"member-with-unpaired-surrogate-added":  `{"amount`+esc+`":"pay 1000",` + canon[1:],
+		} {
+			c.Case("verify:"+kind, map[string]any{"escape": esc, "text": text}, func() {
+				c.Nontrivial("surrogate|" + kind + "|" + esc)
+				c.Count("unpaired_surrogate_verifications")
+				if text == canon {
+					c.Failf("harness:surrogate-mutation-did-not-apply", "%s", kind)
+					return
+				}
+				if err := gmsl.VerifyJSON(id.Server, gmsl.KeyID(id.KeyID), id.Pub, []byte(text)); err == nil {
+					c.Failf("verify:accepts-mutation:"+kind, "VerifyJSON accepts %s, a copy of the signed %s with the escape %s put in", text, canon, esc)
+				}
+			})
+		}
+		c.Case("sign:unpaired-surrogate", map[string]any{"escape": esc}, func() {
+			for _, obj := range []string{`{"a":"x` + esc + `"}`, `{"a` + esc + `":1}`, `{"a":{"b":["` + esc + `"]}}`} {
+				out, err := gmsl.SignJSON(id.Server, gmsl.KeyID(id.KeyID), id.Priv, []byte(obj))
+				c.Count("unpaired_surrogate_signings")
+				if err != nil {
+					continue
+				}
+				if verr := gmsl.VerifyJSON(id.Server, gmsl.KeyID(id.KeyID), id.Pub, out); verr != nil {
+					c.Failf("sign:unpaired-surrogate:output-does-not-verify", "SignJSON signs %s and VerifyJSON refuses the result %s: %v", obj, out, verr)
+					continue
+				}
+				// signed it is: then the signature covers the escape, i.e. does not verify with it taken out
+				without := strings.Replace(string(out), esc, "", 1)
+				if verr := gmsl.VerifyJSON(id.Server, gmsl.KeyID(id.KeyID), id.Pub, []byte(without)); verr == nil {
+					c.Failf("verify:accepts-mutation:unpaired-surrogate-removed", "SignJSON signed %s; the result verifies with the escape %s removed as well", obj, esc)
+				}
+			}
+		})
+	}
+}
+
 func c02InvalidUTF8Names(c *mon.Ctx) {
 	if c.Shard != 0 {
 		return
@@ -312,7 +367,9 @@ func c02InvalidUTF8Signers(c *mon.Ctx) {
 		return
 	}
 	id := gen.NewIdentity(c.RandShared("utf8-signer-2"), "unused.example", "ed25519:1")
-	for _, nk := range [][2]string{{"srv\xff", "ed25519:1"}, {"srv.example", "ed25519:\xff"}, {"\xc3(", "ed25519:a"}} {
+	for _, nk := range [][2]string{{"srv\xff", "ed25519:1"}, {"srv.example", "ed25519:\xff"}, {"\xc3(", "ed25519:a"},
+		// halves that are only valid when read together: a name ending inside a character, a key ID starting with the rest
+		{"a.example\xc3", "\xa9d25519:k1"}, {"srv\xe2\x82", "\xaced25519:1"}, {"a.example\xf0\x9f", "\x98\x80:1"}} {
 		c.Case("sign-verify:signer-not-utf8", map[string]any{"name": fmt.Sprintf("%q", nk[0]), "key_id": fmt.Sprintf("%q", nk[1])}, func() {
 			c.Nontrivial(fmt.Sprintf("signer-not-utf8|%q|%q", nk[0], nk[1]))
 			out, err := gmsl.SignJSON(nk[0], gmsl.KeyID(nk[1]), id.Priv, []byte(`{"content":{"body":"x"},"unsigned":{"age":1}}`))
@@ -335,6 +392,7 @@ func c02InvalidUTF8Signers(c *mon.Ctx) {
 func runC02(c *mon.Ctx) {
 	c02NonObjects(c)
 	c02InvalidUTF8Names(c)
+	c02UnpairedSurrogates(c)
 	c02InvalidUTF8Signers(c)
 	r := c.Rand("objects")
 	sc := gen.Scramble(c.Rand("scramble"))
